@@ -6,4 +6,5 @@ cd /verif/mc
 mkdir -p /verif/bin /verif/evidence /verif/replays
 $GO build -o /verif/bin/kvinstr ./cmd/kvinstr
 /verif/scripts/build.sh full >/dev/null
+/verif/scripts/build.sh full race >/dev/null
 echo "setup ok: $(ls /verif/bin)"
